@@ -134,7 +134,7 @@ PROPS = {
         "partial": [], "assumptions": CONN_ASSUMPTIONS,
     },
     "C09": {
-        "batches": lambda tier: conn_batches([("c09", 500), ("c03", 100), ("c10", 100)], [("c09", 8000), ("c03", 2000), ("mixed", 2000), ("c10", 600)])(tier)
+        "batches": lambda tier: conn_batches([("c09", 500), ("c03", 100), ("c10", 100), ("bigunread", 3)], [("c09", 8000), ("c03", 2000), ("mixed", 2000), ("c10", 600), ("bigunread", 12)])(tier)
                    + ctl_batches("idle", 100, 3000, per=100)(tier),
         "replay_bin": "pristine", "need": ["seq", "heads", "bodies", "wire", "eof", "nohang"], "agr_need": ["seq", "heads", "bodies", "wire", "eof"],
         "rule": "framings x consumption prefixes (0, 1, len-1, len without EOF, len+1 with EOF, random) x ways of finishing (respond, drop, panic, into_writer) x following pipelined requests",
@@ -214,7 +214,7 @@ PROPS = {
         "assumptions": CTL_ASSUMPTIONS,
     },
     "C20": {
-        "batches": lambda tier: ctl_batches("pool", 1500, 30000)(tier) + ctl_batches("srvp", 300, 6000, per=150)(tier) + ctl_batches("backlog", 40, 1000, per=40)(tier) + [
+        "batches": lambda tier: ctl_batches("pool", 1500, 30000)(tier) + ctl_batches("srvp", 300, 6000, per=150)(tier) + ctl_batches("backlog", 120, 2000, per=40)(tier) + [
             {"bin": "pristine", "args": ["srv", "drop", 6 if tier != "thorough" else 60], "name": "pristine server drop (tcp/unix)"},
             {"bin": "pristine", "args": ["srv", "reclaim", 5], "name": "pristine thread reclamation, burst of 5"},
             {"bin": "pristine", "args": ["srv", "reclaim", 40], "name": "pristine thread reclamation, burst of 40"}],
@@ -250,12 +250,12 @@ PROPS = {
         "partial": [], "assumptions": CTL_ASSUMPTIONS + CONN_ASSUMPTIONS,
     },
     "C11": {
-        "batches": ctl_batches("ahead", 600, 20000, per=200),
+        "batches": lambda tier: ctl_batches("ahead", 600, 20000, per=200)(tier) + conn_batches([("bigunread", 3)], [("bigunread", 12)])(tier),
         "replay_bin": "controlled", "need": ["ahead", "nohang", "noabort"], "need_intent": False, "agr_need": ["ahead", "seq", "wire"],
         "rule": "pipelines of 2..8 requests with bodies {none, 1, 2..1023, 1024} and optionally a first request with a 1025..9000-byte or chunked body that the application reads "
                 "to EOF on arrival; the application collects ALL requests before answering any (a deadlock — detected by the scheduler — iff read-ahead fails); "
                 "count of requests obtained while none is answered compared with the read-ahead model",
-        "required_tags": ["streamed_first:0", "streamed_first:1", "park:1", "park:0"],
+        "required_tags": ["streamed_first:0", "streamed_first:1", "park:1", "park:0", "fam:bigunread"],
         "partial": [], "assumptions": CTL_ASSUMPTIONS,
     },
     "C13": {
